@@ -23,7 +23,7 @@ import numpy as np
 from .. import core
 
 FS = {1: 1.0, 2: 100.0, 3: 51.2}
-GAINS = {0: 1.0, 1: 1e-6, 2: 7.3, 3: 2.5e4}
+GAINS = {0: 1.0, 1: 1e-17, 2: 7.3, 3: 2.5e4, 4: 1e-6, 5: 1e15}
 # real catalogue shapes (no vanishing component, mixed signs), by channel count
 SHAPES = {2: [1.0, -0.6], 3: [0.7, 1.0, -0.45], 4: [0.35, -0.8, 1.0, 0.55], 5: [1.0, 0.62, -0.3, -0.85, 0.5],
           6: [0.4, 0.75, 1.0, -0.9, -0.55, 0.3]}
@@ -162,11 +162,11 @@ def run(ctx):
                        "numerical accuracy is delegated to the conformance layer; the specification decides the claim domain only"]
     quick = ctx.tier == "quick"
     if quick:
-        consts = {"FnPermille": {40, 75, 120, 180, 250}, "XiPermille": {20, 35, 50}, "NxSegs": {1024, 4096}, "Chans": {2, 4},
+        consts = {"FnPermille": {40, 75, 120, 180, 210, 250}, "XiPermille": {20, 35, 50}, "NxSegs": {1024, 8192}, "Chans": {2, 4},
                   "Methods": {"EFDD", "FSDD"}, "BandMult": {4, 8}, "FsIds": {1, 2}, "Gains": {1, 3}}
     else:
         consts = {"FnPermille": set(range(40, 251, 15)), "XiPermille": {20, 25, 30, 40, 50}, "NxSegs": {1024, 2048, 4096, 8192},
-                  "Chans": {2, 3, 6}, "Methods": {"EFDD", "FSDD"}, "BandMult": {4, 6, 10}, "FsIds": {1, 2, 3}, "Gains": {1, 2, 3}}
+                  "Chans": {2, 3, 6}, "Methods": {"EFDD", "FSDD"}, "BandMult": {4, 6, 10}, "FsIds": {1, 2, 3}, "Gains": {1, 2, 3, 4, 5}}
     consts.update({"Sppk": 3, "Npmax": 20, "MinLines": 4, "MinPeriods": 30, "MinBandMult": 4})
     mod, cfg = ctx.model("Bell", "bell", consts,
                          invariants=["ClaimResolved", "ClaimPeriods", "ClaimExtrema", "ClaimBand", "ClaimRanges", "ScaledOnlyAfterUnit"],
